@@ -25,7 +25,8 @@ Judgement(o) ==
         env == o.env
         real == [types |-> ToSet(o.real.types), errs |-> ToSet(o.real.errs)]
         R == RefObs(c, env)
-        M == ImplObs(c, env)
+        run == ImplRun(c, env, NoFix)           \* one evaluation of the model per observation
+        M == ObsOfRun(c, run)
         cls == IF real = R THEN {} ELSE Class(c, env)
         plain == UnionVars(c) = {} /\ ~UsesEll(c) /\ "Any" \notin ToSet(c.ta) \cup ToSet(c.tb)
     IN  \* the result type and the fired errors are the documented ones (or a named known deviation)
@@ -43,7 +44,7 @@ Judgement(o) ==
         /\ IF ToSet(o.real.types) = ToSet(o.real.etypes) THEN TRUE ELSE Say(o.tid, "viol:CallTypeIsEvaluatorResult")
         /\ IF ToSet(o.real.diag) \subseteq ToSet(o.real.errs) /\ ((o.real.diag = << >>) = (o.real.errs = << >>))
            THEN TRUE ELSE Say(o.tid, "viol:DiagnosticsAreEvaluatorErrors")
-        /\ IF o.real.diag = ImplDiag(c, env) /\ o.real.errs = ImplErrSeq(c, env) THEN TRUE
+        /\ IF o.real.diag = DiagOf(run.errs) /\ o.real.errs = run.errs THEN TRUE
            ELSE IF real = M THEN Say(o.tid, "drift:ImplDiag") ELSE TRUE
 
 TInit == l = 1 /\ case = Blank /\ stage = "trace"
